@@ -4,7 +4,10 @@ A data-driven TABLE of differentiable entry points (ENTRIES) is probed with one 
 (`check_probe`): scalarise the output with a generated weight tensor, compare the directional
 derivative from torch.autograd.grad with central finite differences along generated directions.  Every table has a "point"
 dimension: generic (hash noise) values, or the special point of the entry (zero / identity initialised parameters, exactly
-all-zero fields, identity matrices, identical images, no-op argument forms; see POINTS below).
+all-zero fields, identity matrices, identical images, no-op argument forms; see POINTS below).  A separate table (KINK_ENTRIES) places
+the inputs AT a kink / singular point (exactly zero residual under |.| / Euclidean norm, zero rotation vector) where the gradient
+must still be finite and a valid subgradient (`check_kink`).  Both oracles also assert purity: constant inputs are not written to,
+and the same inputs give the same value however often the operation was evaluated before.
 """
 from __future__ import annotations
 
@@ -20,7 +23,7 @@ from vlib.core import EPS32, EPS64, Facet, Skip, Violation
 
 PROPERTY = "C20"
 MANIFEST = {
-    "text": "Generated-input search (Hypothesis) over a data-driven table of 465 differentiable entry points, each evaluated at GENERIC values and "
+    "text": "Generated-input search (Hypothesis) over a data-driven table of 485 differentiable entry points (465 + 20 kink entries), each evaluated at GENERIC values and "
             "- for the 370 entries that have one - at its SPECIAL point (the documented initial / degenerate-but-smooth input: "
             "freshly constructed zero / identity initialised transformation parameters incl. inverses, composites, linked inverses and "
             "callables predicting exactly the initial values; exactly all-zero flow / velocity / coefficient fields for expv (scale "
@@ -57,7 +60,24 @@ MANIFEST = {
             "clearly non-zero (detach / rounding / integer cast), the output is not locally constant in a leaf, a second "
             "forward/backward on the same module gives the same gradient (fresh graph), after an in-place step of the leaves (an "
             "optimiser step) a third forward/backward gives the derivative at the NEW point (buffers recomputed), autograd in-place "
-            "errors are violations. Every entry is probed by a seed-independent floor (at generic values AND at its special point) plus "
+            "errors are violations. PURITY (every case): every tensor passed to the operation and held constant (images, coordinates, "
+            "masks, fixed fields, Parameters not differentiated; also image / mask tensors that already have the float32 dtype the "
+            "correlation and overlap losses cast to, and scalar non-zero padding values 0.5 / -1.0 / 2 for grid_sample / sample_image / "
+            "warp_image / Image.sample / SampleImage / AlignImage / TransformImage / ImageTransformer with the image held constant) is "
+            "bitwise unchanged after forward + backward + all finite-difference evaluations + the optimiser iterations; the "
+            "differentiated input is not written to by a no-grad evaluation; the second evaluation reproduces the value of the first "
+            "and the value after the finite-difference evaluations equals the value before them (round-off of one evaluation) - "
+            "checked before unreliable directions become a skip, because a drifting input is exactly what makes them unreliable. "
+            "KINKS AND SINGULAR POINTS (20 entries): mae / l1 / L1ImageLoss at identical images, L1Norm / Sparsity at zero parameters, "
+            "total variation / grad_loss (p*q >= 1, incl. q = 1/p: the Euclidean norm of the gradient) and their modules on zero, "
+            "constant and compactly supported fields, inverse_consistency_loss on exactly inverse-consistent pairs (zero fields, "
+            "compact support, a translation and its inverse as matrices, a transformation with its linked inverse or with a second "
+            "transformation at the inverse parameters), Landmark / ClosestPointDistance at coincident points, abspow(exponent >= 1) "
+            "at 0, the angle-axis / quaternion conversions at the zero rotation vector / identity quaternion / identity matrix, with "
+            "the residual exactly zero everywhere or on a generated part: the gradient is finite and, with positive generated "
+            "weights, -D+f(-d) <= <grad f, d> <= D+f(d) for the one-sided directional derivatives along 3 generated directions "
+            "(both bounds coincide with the derivative at a smooth point). Grid axes with a single sample are generated for "
+            "normalize_flow / denormalize_flow / normalize_grid / denormalize_grid. Every entry is probed by a seed-independent floor (at generic values AND at its special point) plus "
             "generated cases (1 in 4 at the special point); the self-test fails "
             "(exit 2) when a public name of losses.functional, losses, core.functional, modules or spatial has neither an entry nor "
             "a justified exclusion (EXCLUDED). Exploration, not proof.",
@@ -70,20 +90,39 @@ MANIFEST = {
             "stale-after-step / float32-staircase / zero-input-shortcut functions. A direction is used only if the difference "
             "quotients of steps h and h/2 agree within HALF the tolerance (their difference estimates the error of the finer one when "
             "the second-order term is only piecewise smooth, as for exp(v) at v = 0) and the second differences are consistent. The "
-            "round-off floor uses the magnitude of the perturbed outputs as well (outputs that are exactly zero at a special point).",
+            "round-off floor uses the magnitude of the perturbed outputs as well (outputs that are exactly zero at a special point). "
+            "Kink oracle: valid for locally Lipschitz, Clarke-regular scalarisations (positive combinations of |.| / norms of "
+            "functions that are smooth, or piecewise linear with value 0, at the point; smooth functions), which is why its weights "
+            "are positive and why the two fields of a compactly supported inverse-consistency pair share their support; one-sided "
+            "quotients of steps h and h/2, their difference (x3) is the error estimate added to the bracket, a direction whose "
+            "estimate exceeds max(1.5 tol, 1e-2 natural units) or in which the lower bound exceeds the upper one is dropped and "
+            "counted. The inputs held constant are found by walking the closure of the entry's evaluation function (tensors, "
+            "lists / dicts of tensors, Parameters of captured modules; module buffers are recomputed state, not inputs). The kink "
+            "oracle and the purity checks are self-tested (|x| and norm at 0 pass as open kinks, sqrt(x**2) is NaN, an out-of-"
+            "bracket gradient, an operation writing into a constant input / into its leaf under no_grad / drifting with the call count).",
     "technique": "property-based testing (Hypothesis) with a finite-difference derivative oracle over a data-driven table of entry points",
 }
 ASSUMPTIONS = [
-    "special points are generated only where the operation is differentiable there and not legitimately constant in a leaf, decided "
-    "from the formula: not for |x| at 0 (mae / l1, L1Norm, Sparsity, total_variation_loss, grad_loss with odd p or q not in {1, 2}), "
-    "sqrt / norm at 0 (angle-axis and quaternion log / exp conversions, inverse_consistency_loss, point distances), acos at 1 (3D "
-    "euler_rotation_angles), linear interpolation of non-constant data exactly at its knots (flow / transform leaves of warps on the "
+    "special points (central-difference oracle) are generated only where the operation is differentiable there and not legitimately "
+    "constant in a leaf, decided from the formula: not for |x| at 0 (mae / l1, L1Norm, Sparsity, total_variation_loss, grad_loss with "
+    "odd p or q not in {1, 2}) and norm at 0 (inverse_consistency_loss, point distances) - these convex kinks, and the angle-axis / "
+    "quaternion conversions at zero rotation (smooth maps computed through sqrt of the squared angle), are the entries of the kinks "
+    "facet (finite gradient + one-sided bracket) -, acos at 1 (3D euler_rotation_angles), linear interpolation of non-constant data exactly at its knots (flow / transform leaves of warps on the "
     "same grid: generated with a source grid of another size, remaining knot hits are dropped by the kink detector and counted as "
     "skips), bilinear forms with a zero factor (lie_bracket; the weights W of a callable at zero conditioning input; masks / weights / "
     "norm of a zero residual at identical images), sample_flow w.r.t. coordinates of a zero field, constant images w.r.t. coordinates",
     "GenericSpatialTransform(flip_grid_coords=True) with predicted 3D Euler angles that are exactly zero returns a NaN gradient "
-    "(euler_rotation_angles: acos at 1, the gimbal lock of the ZXZ / XZX decomposition): a kink of that parameterisation, not generated "
-    "(recorded as an observation, not asserted)",
+    "(euler_rotation_angles: acos at 1, the gimbal lock of the ZXZ / XZX decomposition) although the transformation is a smooth "
+    "function of the predicted angles there: generated, reported under its own kind grad_nonfinite:GenericSpatialTransform.callable"
+    "[flip_grid_coords,zero_euler_angles] (proposed known finding K20-1)",
+    "not generated at all, because no finite one-sided derivative exists and nothing can be asserted: x ** q with q < 1 at 0 (abspow "
+    "with exponent < 1, grad_loss with p * q < 1), normalisation of a zero vector (normalize_quaternion at 0, polyline directions / "
+    "tangents of coincident points with normalize=True), euler_rotation_angles of a 3D matrix at the gimbal lock, "
+    "quaternion_exp_to_log next to w = 1 (acos); nor the kinks that are not of the regular (convex) type, where autograd's mixed "
+    "one-sided selection need not lie between the one-sided directional derivatives: linear interpolation exactly at the knots "
+    "(identity transformation sampled on its own grid), max / min pooling ties, max_difference ties",
+    "purity compares constant inputs bitwise and values within the round-off of one evaluation (8 eps sum|w*out|); it presumes that "
+    "deepali's CPU kernels are run-to-run deterministic for one thread (the runner pins OMP_NUM_THREADS=1)",
     "at identical images the similarity losses are at their optimum: the true gradient is zero, the comparison is against the round-off "
     "floor only (for the float32 correlation / overlap ratios 4 x the single-rounding floor: three accumulated sums), such cases are "
     "not counted as non-trivial; they assert that the output requires grad and that the gradient is finite and zero within round-off",
@@ -146,9 +185,14 @@ class Probe:
     rule      None: float64 rule iff output and leaves are float64, else float32 rule; "f32" forces the float32 rule
     stateful  evaluate() goes through a torch.nn.Module that keeps buffers: a second forward/backward
               on the same object is required to give the same gradient (optimiser iteration 2)
+
+    Every tensor that evaluate() can reach besides the leaves (the tensors captured by its closure: constant images, coordinates,
+    masks, fixed fields, Parameters of modules that are not differentiated) is an INPUT HELD CONSTANT: see _Inputs (purity).
     """
 
-    def __init__(self, leaves, evaluate, scale, stateful=False, labels=(), record_only=None, rule=None, abs_mag=0.0, staircase=False):
+    def __init__(self, leaves, evaluate, scale, stateful=False, labels=(), record_only=None, rule=None, abs_mag=0.0, staircase=False,
+                 tag=""):
+        self.tag = str(tag)  # suffix of the entry name in violation kinds: a documented sub-condition of the entry (stable, no numbers)
         self.staircase = bool(staircase)  # float64 result computed through float32 coordinates: see _staircase()
         self.abs_mag = float(abs_mag)  # magnitude of intermediate values when the output is a difference (1 - ratio)
         self.rule = rule  # "f32": the operation computes in float32 internally although it returns the input dtype
@@ -215,6 +259,74 @@ def _backward(entry, s, leaves):
         raise
 
 
+def _captured_tensors(fn, leaves):
+    """The tensors evaluate() can reach besides the leaves: contents of its closure cells, followed through nested closures,
+    lists / tuples / dicts and the Parameters of captured modules (buffers are recomputed by update() and are not inputs)."""
+    seen, out = set(), []
+
+    def visit(o, depth):
+        if id(o) in seen or depth > 6:
+            return
+        seen.add(id(o))
+        if isinstance(o, torch.Tensor):
+            if not any(o is leaf for leaf in leaves):
+                out.append(o)
+        elif isinstance(o, torch.nn.Module):
+            for q in o.parameters():
+                visit(q, depth + 1)
+        elif isinstance(o, (list, tuple)):
+            for x in o:
+                visit(x, depth + 1)
+        elif isinstance(o, dict):
+            for x in o.values():
+                visit(x, depth + 1)
+        elif callable(o):
+            for x in (getattr(o, "__self__", None), getattr(o, "__func__", None)):
+                if x is not None and not isinstance(x, type):
+                    visit(x, depth + 1)
+            for cell in getattr(o, "__closure__", None) or ():
+                try:
+                    visit(cell.cell_contents, depth + 1)
+                except ValueError:  # empty cell
+                    pass
+
+    visit(fn, 0)
+    return out
+
+
+class _Inputs:
+    """Purity of an entry point: the operation is a FUNCTION of its inputs.  Snapshot of every input held constant, taken before
+    the first evaluation; after all forward / backward / finite-difference evaluations (leaves restored) every one of them must be
+    bitwise unchanged, and evaluating the same entry with the same inputs again must reproduce the first value (an operation that
+    writes into a caller's tensor - e.g. an in-place subtraction on an un-copied alias of the image - returns the right value and
+    gradient once, every later evaluation (finite differences, the next optimisation step) sees drifted data; the finite-difference
+    reliability test alone would drop such directions as 'unreliable')."""
+
+    def __init__(self, probe: Probe):
+        self.tensors = _captured_tensors(probe.evaluate, probe.leaves)
+        self.snap = [t.detach().as_subclass(torch.Tensor).clone() for t in self.tensors]
+
+    def check(self, entry: str):
+        for i, (t, s) in enumerate(zip(self.tensors, self.snap)):
+            now = t.detach().as_subclass(torch.Tensor)
+            if now.shape != s.shape or now.dtype != s.dtype or not torch.equal(now, s):
+                same = now.shape == s.shape and now.dtype == s.dtype
+                d = float((now.double() - s.double()).abs().max()) if same else float("nan")
+                raise Violation(f"input_modified:{entry}",
+                                f"a tensor that is passed to the operation and held constant (captured input {i}, shape "
+                                f"{tuple(s.shape)}, {s.dtype}, requires_grad={t.requires_grad}) was modified by evaluating the "
+                                f"operation: max |change| {d:.6g}")
+
+
+def _check_reproducible(entry, what, a, b, eps, fmag):
+    """Two evaluations of the same entry with the same inputs: equal up to the round-off of one evaluation."""
+    tol = KNOISE * eps * max(fmag, 1e-300)
+    if not abs(a - b) <= tol:
+        raise Violation(f"not_reproducible:{entry}",
+                        f"{what}: {a!r} vs {b!r} (|delta| {abs(a - b):.3g} > {tol:.3g}): the value of the operation depends on "
+                        "how often it was evaluated before, not only on its inputs")
+
+
 class _Eval:
     def __init__(self, probe: Probe, w: torch.Tensor):
         self.p = probe
@@ -222,6 +334,7 @@ class _Eval:
         self.base = [leaf.detach().clone() for leaf in probe.leaves]
         self.mag = 0.0  # max over the evaluations of sum|w * out|: magnitude of the PERTURBED outputs (round-off floor at
         #                 special points where the unperturbed output is exactly zero)
+        self.moved = None  # (leaf index, max |change|) if an evaluation wrote into a differentiated input (see leaves_kept)
 
     def set(self, t: float, d):
         with torch.no_grad():
@@ -234,8 +347,22 @@ class _Eval:
             o = _flat(self.p.evaluate()).double()
             value = float((self.w * o).sum())  # before the leaves are restored: `o` may alias a leaf
             self.mag = max(self.mag, float((self.w.abs() * o.abs()).sum()))
+            if self.moved is None:
+                for i, (leaf, b, di) in enumerate(zip(self.p.leaves, self.base, d)):
+                    want = b + t * di.to(b.dtype)
+                    if not torch.equal(leaf.detach().as_subclass(torch.Tensor), want):
+                        self.moved = (i, float((leaf.detach().as_subclass(torch.Tensor) - want).abs().max()))
+                        break
         self.set(0.0, d)
         return value
+
+    def leaves_kept(self, entry: str):
+        """Purity w.r.t. the differentiated inputs: an evaluation (in no-grad mode, as at inference time) must not write into
+        them either (the finite-difference oracle itself relies on the leaves staying where it put them)."""
+        if self.moved is not None:
+            raise Violation(f"input_modified:{entry}",
+                            f"evaluating the operation with autograd disabled changed the differentiated input (leaf {self.moved[0]}) "
+                            f"in place: max |change| {self.moved[1]:.6g}")
 
 
 def _staircase(probe, F, h, d, c2, tol, floor) -> bool:
@@ -250,8 +377,10 @@ def _staircase(probe, F, h, d, c2, tol, floor) -> bool:
 
 def check_probe(entry: str, probe: Probe, key: int) -> dict:
     leaves = probe.leaves
+    inputs = _Inputs(probe)  # snapshot of the inputs held constant, before the first evaluation
     out = _flat(probe.evaluate())
     labels = [entry] + probe.labels
+    entry = entry + probe.tag  # violation kinds of a documented sub-condition of the entry
     if not out.is_floating_point():
         raise Violation(f"output_not_float:{entry}", f"output dtype {out.dtype}")
     if not out.requires_grad:
@@ -276,6 +405,10 @@ def check_probe(entry: str, probe: Probe, key: int) -> dict:
             raise Violation(f"grad_nonfinite:{entry}", f"gradient w.r.t. leaf {i} has non-finite entries (finite forward value)")
     F = _Eval(probe, w)
     f0 = F(0.0, [torch.zeros_like(p) for p in leaves])
+    # purity (1): the second evaluation (no-grad mode) reproduces the value of the first one (grad mode, before backward)
+    inputs.check(entry)
+    _check_reproducible(entry, "value of the first evaluation vs the second evaluation with the same inputs",
+                        float((w * out.detach().double()).sum()), f0, eps, max(fmag, F.mag))
 
     # -- leaves whose gradient is identically zero: does the function depend on them at all?
     for i, g in enumerate(grads):
@@ -323,6 +456,12 @@ def check_probe(entry: str, probe: Probe, key: int) -> dict:
                             f"|delta|={err:.3g} > tol {tol:.3g} (rel {rel:g}, floor {floor:.3g}, rule {'f64' if f64 else 'f32'})")
         worst = max(worst, err / tol)
         nontrivial = nontrivial or abs(c2) >= NT_FRACTION * unit
+    # purity (2): after the finite-difference evaluations the same inputs still give the same value, and no input held constant
+    # was written to (checked BEFORE unreliable directions are turned into a skip: a drifting input makes them unreliable)
+    inputs.check(entry)
+    F.leaves_kept(entry)
+    _check_reproducible(entry, "value before vs after the finite-difference evaluations (same inputs)", f0,
+                        F(0.0, [torch.zeros_like(p) for p in leaves]), eps, fmag)
     if used == 0:
         raise Skip(f"fd_unreliable:{entry}")
 
@@ -374,6 +513,7 @@ def check_probe(entry: str, probe: Probe, key: int) -> dict:
             with torch.no_grad():
                 for leaf, b in zip(leaves, F.base):
                     leaf.copy_(b)
+        inputs.check(entry)  # purity (3): nor by the repeated forward / backward passes of the optimiser iterations
     return {"ratio": worst, "nontrivial": nontrivial, "labels": labels}
 
 
@@ -454,6 +594,45 @@ def selftest():
     xin = noise((3, 4), 8)
     r = check_probe("good_module", Probe(list(good.parameters()), lambda: good(xin).tanh(), 1.0, stateful=True), 4)
     assert "after_step=checked" in r["labels"], r
+    # purity: an operation that writes into an input held constant / whose value depends on the number of evaluations / that writes
+    # into the differentiated input when autograd is disabled
+    const, xk = noise((3, 4), 11), leaf(12)
+
+    def impure():
+        const.sub_(0.5)
+        return (xk * const).sin()
+
+    _expect("input_modified", lambda: check_probe("t", Probe([xk], impure, 1.0), 2))
+    calls = {"n": 0}
+
+    def drifting():
+        calls["n"] += 1
+        return xk.sin() + 0.25 * calls["n"]
+
+    _expect("not_reproducible", lambda: check_probe("t", Probe([xk], drifting, 1.0), 2))
+
+    def moves_leaf():
+        if not torch.is_grad_enabled():
+            xk.mul_(2.0)
+            return (0.5 * xk).sin()
+        return xk.sin()
+
+    _expect("input_modified", lambda: check_probe("t", Probe([xk], moves_leaf, 1.0), 2))
+    # kink oracle: |x| and the Euclidean norm at 0 pass (subgradient 0) and count as an open kink, sqrt(x**2) is NaN, a gradient
+    # outside [-D+f(-d), D+f(d)] is reported, a smooth function passes with both bounds equal
+    for dt in (torch.float64, torch.float32):
+        zk = torch.zeros(3, 4, dtype=dt).requires_grad_(True)
+        r = check_kink("k", Probe([zk], lambda: zk.abs() + 0.5 * zk, 1.0), 2)
+        assert r["nontrivial"] and "kink_open" in r["labels"], r
+        r = check_kink("k", Probe([zk], lambda: torch.linalg.norm(zk, dim=1) + zk.sum(1).sin(), 1.0), 2)
+        assert r["nontrivial"] and "kink_open" in r["labels"], r
+        _expect("grad_nonfinite", lambda: check_kink("k", Probe([zk], lambda: zk.square().sqrt(), 1.0), 2))
+        _expect("grad_nonfinite", lambda: check_kink("k", Probe([zk], lambda: zk.square().sum(1).sqrt(), 1.0), 2))
+        _expect("not_a_subgradient", lambda: check_kink("k", Probe([zk], lambda: zk.abs() + 2.0 * (zk - zk.detach()), 1.0), 2))
+        _expect("not_a_subgradient", lambda: check_kink("k", Probe([zk], lambda: _W2.apply(zk) * 50, 1.0), 2))
+        r = check_kink("k", Probe([zk], lambda: (zk + 0.3).sin() + zk.abs() ** (1.5 if dt == torch.float64 else 2), 1.0), 2)
+        assert r["nontrivial"] and r["ratio"] < 0.5, r
+    _expect("input_modified", lambda: check_kink("k", Probe([xk], impure, 1.0), 2))
     missing = uncovered_names()
     assert not missing, ("public names without a C20 table entry or a justified exclusion (add an entry to the facet tables of "
                          f"props/c20.py or a reason to EXCLUDED): {missing}")
@@ -810,7 +989,7 @@ def image_transformer_cases(draw, entry=None, point=None):
         "amp": draw(gen.qfloat(0.05, 0.3, 0.01)), "stride": draw(st.sampled_from([1, 1, 2])), "steps": draw(st.integers(1, 4)),
         "vscale": draw(st.sampled_from([None, 0.5, 1.0])), "ffd_stride": draw(st.sampled_from([2, 3])),
         "transpose": draw(st.booleans()), "order": draw(st.sampled_from([None, "XYZ", "ZXZ", "YXZ"])),
-        "C": draw(st.integers(1, 2)), "padding": draw(st.sampled_from(["border", "zeros", "reflect", 0.5])),
+        "C": draw(st.integers(1, 2)), "padding": draw(st.sampled_from(["border", "zeros", "reflect", 0.5, -1.0, 2])),
         "source": draw(st.sampled_from(["same", "same", "other"])), "NI": draw(st.sampled_from(["N", "one"])),
         "target": draw(st.sampled_from(["same", "same", "resized", "subdomain"])), "centers": draw(st.booleans()),
         "flip_coords": draw(st.sampled_from([False, False, True])), "point": _draw_point(draw, True, point),
@@ -889,7 +1068,7 @@ def sampling_cases(draw, entry=None, point=None):
         "scale": draw(st.sampled_from([None, None, 0.5, 1.0, -1.0, 2.0])),
         "entry": entry, "D": D, "shape": draw(small_shapes(D, 3)), "oshape": draw(small_shapes(D, 2, 5, 4)),
         "N": draw(st.integers(1, 2)), "C": draw(st.integers(1, 3)), "ac": draw(st.booleans()),
-        "padding": draw(st.sampled_from(["border", "zeros", "reflect", 0.5, None])), "key": draw(st.integers(0, 10 ** 6)),
+        "padding": draw(st.sampled_from(["border", "zeros", "reflect", 0.5, -1.0, 2, None])), "key": draw(st.integers(0, 10 ** 6)),
         "outside": draw(st.booleans()), "bcast": draw(st.sampled_from(["both", "data1", "grid1"])),
         "mode": draw(st.sampled_from([None, None, "linear", "bilinear"])),
     }
@@ -1060,6 +1239,7 @@ def flow_cases(draw, entry=None, point=None):
         "stride": draw(st.sampled_from([1, 2])), "add_identity": draw(st.booleans()),
         "which": draw(st.sampled_from([None, None, "first", "mixed"])), "padding": draw(st.sampled_from([None, "border", "zeros", "reflect"])),
         "point": _draw_point(draw, entry in FLOW_SPECIAL, point), "zero": draw(st.sampled_from(["both", "both", "u", "v"])),
+        "thin": draw(st.sampled_from([None, None, 0, 1, 2])),  # normalize_flow / denormalize_flow: a grid axis with ONE sample
     }
 
 
@@ -1171,8 +1351,16 @@ def build_flow_probe(case) -> Probe:
         grid = Grid(shape=shape, align_corners=ac)
         return Probe([m], lambda: U.affine_flow(m, grid), 0.3, labels=labels)
     if entry in ("normalize_flow", "denormalize_flow"):
+        thin = case.get("thin")
+        if thin is not None:
+            # a grid axis with a single sample (a 2D slice kept as a volume, a coarse pyramid level): the functions document the case
+            # by their where(size > 1, ..., 0); vectors along that axis map to zero
+            sh = list(shape)
+            sh[thin % D] = 1
+            u = torch.zeros((N, D) + tuple(sh), dtype=torch.float64) if special else noise((N, D) + tuple(sh), key + 61, -a, a)
         f = _leaf(u)
-        return Probe([f], lambda: getattr(U, entry)(f, align_corners=ac), a, labels=labels + [f"ac={ac}"])
+        return Probe([f], lambda: getattr(U, entry)(f, align_corners=ac), a, labels=labels + [f"ac={ac}", f"thin={thin is not None}"],
+                     tag="" if thin is None else "[size_one_axis]")
     raise KeyError(entry)
 
 
@@ -1436,6 +1624,9 @@ def similarity_cases(draw, entry=None, point=None):
         "normalize": draw(st.booleans()),
         "norm_from": draw(st.sampled_from([None, "source", "both"])), "alt_name": draw(st.booleans()),
         "wmask": draw(st.sampled_from(["none", "mask", "source_target"])),
+        # the correlation / overlap losses compute in float32 (x.float()): inputs that already ARE float32 are not copied by the
+        # cast, so an in-place operation on its result would write into the caller's tensor (purity)
+        "in32": draw(st.booleans()),
     }
 
 
@@ -1542,14 +1733,17 @@ def build_similarity_probe(case) -> Probe:
     if entry in ("ncc_loss", "lcc_loss", "wlcc_loss"):
         x = noise(full, key + 106, 0.0, 1.0)
         y = x.clone() if same else 0.6 * x + 0.4 * noise(full, key + 107, 0.0, 1.0)
-        xl, yl, leaves = pick(x, y)
+        in32 = bool(case.get("in32"))
+        f32 = (lambda t: t.float()) if in32 else (lambda t: t)
+        labels.append(f"in32={in32}")
+        xl, yl, leaves = pick(f32(x), f32(y))
         kw = dict(reduction=red)
         if entry != "ncc_loss":
             ks = max(k for k in (3, 5, 7) if k <= min(case["kernel"], min(shape)))
             kw["kernel_size"] = ks if case["alpha"] is None else (ks,) + (3,) * (D - 1)  # scalar or (kx, ky[, kz])
             labels.append(f"kernel={kw['kernel_size']}")
         if entry == "lcc_loss" and case["mask"] is not None:  # ncc_loss rejects every mask (K6, C16)
-            kw["mask"] = _posmask((N, 1) + shape, key + 108)
+            kw["mask"] = f32(_posmask((N, 1) + shape, key + 108))
             labels.append(f"mask={case['mask']}")
             if case["wrt"] == "weights":  # local scores are weighted by the mask and the mean is normalised by its sum
                 kw["mask"] = _leaf(kw["mask"])
@@ -1557,10 +1751,10 @@ def build_similarity_probe(case) -> Probe:
                 labels.append("mask_leaf")
         if entry == "wlcc_loss":
             if case["wmask"] == "mask":
-                kw["mask"] = _posmask((N, 1) + shape, key + 108)
+                kw["mask"] = f32(_posmask((N, 1) + shape, key + 108))
             elif case["wmask"] == "source_target":
-                kw["source_mask"] = _posmask((N, 1) + shape, key + 108)
-                kw["target_mask"] = _posmask((N, 1) + shape, key + 109)
+                kw["source_mask"] = f32(_posmask((N, 1) + shape, key + 108))
+                kw["target_mask"] = f32(_posmask((N, 1) + shape, key + 109))
             labels.append(f"wmask={case['wmask']}")
             if case["wrt"] == "weights" and case["wmask"] != "none":  # documented as multiplicative weights
                 for k in ("mask", "source_mask", "target_mask"):
@@ -1583,10 +1777,13 @@ def build_similarity_probe(case) -> Probe:
     if entry in ("dice_score", "dice_loss"):
         x, y = noise(full, key + 113, 0.05, 0.95), noise(full, key + 114, 0.05, 0.95)
         y = x.clone() if same else y
-        xl, yl, leaves = pick(x, y)
+        in32 = bool(case.get("in32"))
+        f32 = (lambda t: t.float()) if in32 else (lambda t: t)
+        labels.append(f"in32={in32}")
+        xl, yl, leaves = pick(f32(x), f32(y))
         kw = dict(reduction=red)
         if case["mask"] is not None:
-            kw["weight"] = _posmask(full, key + 115)
+            kw["weight"] = f32(_posmask(full, key + 115))
             if case["wrt"] == "weights":  # 'weight': voxelwise multiplicative weights
                 kw["weight"] = _leaf(kw["weight"])
                 leaves = [kw["weight"]]
@@ -1599,6 +1796,9 @@ def build_similarity_probe(case) -> Probe:
         y = noise((N, max(2, C2) if C2 > 1 else 1) + shape, key + 117, 0.05, 0.95)
         if same and y.shape == x.shape:  # the target equals the prediction (the probabilities of the logits)
             y = (x.sigmoid() if x.shape[1] == 1 else x.softmax(1)) if logits else x.clone()
+        if case.get("in32"):
+            x, y = x.float(), y.float()
+        labels.append(f"in32={bool(case.get('in32'))}")
         xl, yl, leaves = pick(x, y)
         kw = dict(alpha=case["alpha"], beta=case["beta"], reduction=red)
         if not entry.endswith("with_logits"):
@@ -2277,10 +2477,16 @@ def build_core_probe(case) -> Probe:
         kw = dict(add_identity=flag) if mode is None else dict(mode=mode, add_identity=flag)
         return Probe([u], lambda: f(u, **kw), 0.3, labels=labels + [f"mode={mode}"])
     if fn in ("normalize_grid", "denormalize_grid"):
+        thin = case["opt2"] == 3  # a grid axis with ONE sample (documented by where(size > 1, ..., 0): the coordinate maps to zero)
+        tag = "[size_one_axis]" if thin else ""
+        if thin:
+            shape = tuple(1 if i == key % D else n for i, n in enumerate(shape))
+            size = shape[::-1]
+            labels.append("thin")
         if flag:  # points with explicit size
             g = _leaf(noise((N, 5, D), key + 197, -1.0, 1.0) * (1.0 if fn == "denormalize_grid" else 4.0))
             kw = dict(size=size, align_corners=ac, side_length=[2, 1][opt % 2])
-            return Probe([g], lambda: f(g, **kw), 1.0, labels=labels + ["points"])
+            return Probe([g], lambda: f(g, **kw), 1.0, labels=labels + ["points"], tag=tag)
         cl = opt % 2 == 0
         g = noise((N,) + shape + (D,), key + 197, -1.0, 1.0)
         if not cl:
@@ -2289,7 +2495,7 @@ def build_core_probe(case) -> Probe:
         kw = dict(align_corners=ac, channels_last=cl)
         if not cl:  # denormalize_grid infers the size from a channels-last shape only
             kw["size"] = size
-        return Probe([g], lambda: f(g, **kw), 1.0, labels=labels + [f"channels_last={cl}"])
+        return Probe([g], lambda: f(g, **kw), 1.0, labels=labels + [f"channels_last={cl}"], tag=tag)
     if fn in ("polyline_directions", "polyline_tangents"):
         p = _leaf(torch.tensor(lattice_points(N, 5, 3, key + 198), dtype=torch.float64))  # distinct points: non-zero segments
         kw = {"normalize": flag, ("repeat_last" if fn == "polyline_directions" else "repeat_first"): opt % 2 == 0}
@@ -2341,7 +2547,7 @@ def module_cases(draw, entry=None, point=None):
     entry = entry or draw(st.sampled_from(MODULE_ENTRIES))
     D = 3 if entry == "Curl" and draw(st.booleans()) else draw(gen.dims())
     case = {"entry": entry, "D": D, "N": draw(st.integers(1, 2)), "C": draw(st.integers(1, 2)), "key": draw(st.integers(0, 10 ** 6)),
-            "shape": draw(small_shapes(D, 4, 7, 5)), "padding": draw(st.sampled_from(["border", "zeros", "reflect", 0.5])),
+            "shape": draw(small_shapes(D, 4, 7, 5)), "padding": draw(st.sampled_from(["border", "zeros", "reflect", 0.5, -1.0, 2])),
             "tshape": draw(st.sampled_from(["translation", "affine", "homogeneous", "flow"])), "centers": draw(st.booleans()),
             "opt": draw(st.integers(0, 5)), "flag": draw(st.booleans()), "sigma": draw(st.sampled_from([0.7, 1.0, 1.5])),
             "mode": draw(st.sampled_from(FD_MODES)), "steps": draw(st.integers(0, 4)), "ac": draw(st.booleans()),
@@ -2508,7 +2714,7 @@ def sourced_cases(draw, entry=None, point=None):
         "to_axes": draw(st.sampled_from(["world", "grid", "cube", "cube_corners"])),
         "model": draw(st.sampled_from(GENERIC_MODELS)), "affine_model": draw(st.sampled_from(GENERIC_AFFINE)),
         "rotation_model": draw(st.sampled_from(["ZXZ", "XZX", "XYZ", "ZYX"])), "cps": draw(st.sampled_from([1, 2])),
-        "flip": draw(st.booleans()), "padding": draw(st.sampled_from(["border", "zeros"])), "fresh": draw(st.booleans()),
+        "flip": draw(st.booleans()), "padding": draw(st.sampled_from(["border", "zeros", 0.5])), "fresh": draw(st.booleans()),
         "point": _draw_point(draw, True, point),
     }
     return case
@@ -2731,10 +2937,6 @@ def _generic_probe(case, grid, g, x, labels) -> Probe:
     if source == "callable":  # GenericSpatialTransform._data() has no 'shearing' entry: a callable cannot provide these parameters
         am = am.replace("K", "")
     flip = bool(case["flip"] and source == "callable")
-    if flip and _is_special(case) and D == 3:
-        # flip_grid_coords converts the predicted Euler angles to a matrix and back with euler_rotation_angles (acos): at zero
-        # angles that decomposition is singular (gimbal lock of ZXZ / XZX, d acos(1) = -inf -> NaN gradient): a genuine kink
-        flip = False
     rm = case["rotation_model"]
     if flip and rm not in ("ZXZ", "XZX"):
         rm = "ZXZ"  # euler_rotation_angles (used to flip the rotation) implements these orders only
@@ -2790,11 +2992,345 @@ def _generic_probe(case, grid, g, x, labels) -> Probe:
         if _is_special(case):  # zero conditioning input: the prediction is the bias, legitimately constant in the weights W
             leaves = [nt.b for nt in nets.values()] + [c]
     labels.append(f"m={method}")
-    return _method_probe(t, leaves, method, case, grid, g, x, scale, labels)
+    probe = _method_probe(t, leaves, method, case, grid, g, x, scale, labels)
+    if flip and _is_special(case) and D == 3 and "rotation" in names:
+        # flip_grid_coords converts the predicted Euler angles to a matrix, flips it and converts it back with
+        # euler_rotation_angles (acos): at exactly zero predicted angles (a network whose last layer is zero-initialised) that
+        # decomposition is at its gimbal lock (d acos(1) = -inf), although the transformation itself is a smooth function of the
+        # predicted angles there: its own violation kind
+        probe.tag = "[flip_grid_coords,zero_euler_angles]"
+    return probe
 
 
 def run_sourced(case):
     return check_probe(case["entry"], build_sourced_probe(case), case["key"])
+
+
+# =======================================================================================
+# facet 13: kinks and singular points - inputs at which the operation is still locally Lipschitz (finite one-sided directional
+# derivatives exist) but not differentiable, or differentiable but computed through a formula that is singular there
+
+# Which points, decided by reading the formula:
+#   convex kinks  |x| / Euclidean norm of a residual that is EXACTLY zero on all or on a generated part of the domain: identical
+#                 images under mae / l1, zero parameters under L1Norm / Sparsity, locally constant (zero, compactly supported,
+#                 constant) vector fields under total variation / grad_loss with p * q >= 1, an exactly inverse-consistent pair
+#                 (zero fields, fields with compact support, a translation and its analytic inverse, a transformation at its initial
+#                 parameters and its inverse) under inverse_consistency_loss, coincident points under the point set distances,
+#                 abspow with exponent >= 1 at 0.  These are where optimisations START (identity / zero initialisation) and END
+#                 (perfect alignment), and where fields with compact support live.
+#   smooth points of a singular formula  zero rotation vector / identity quaternion / identity matrix for the angle-axis and
+#                 quaternion exp / log conversions (the maps are analytic there; the formulas divide by the rotation angle).
+# Not generated (no finite derivative of any kind exists, nothing can be asserted): x ** q with q < 1 at 0 (abspow, grad_loss with
+# p * q < 1), normalisation of a zero vector (normalize_quaternion, polyline tangents of coincident points), 3D
+# euler_rotation_angles at the gimbal lock, quaternion_exp_to_log next to w = 1 (acos).
+KINK_ENTRIES = ["mae_loss@equal", "l1_loss@equal", "L1ImageLoss@equal", "L1Norm@zero", "Sparsity@zero", "total_variation_loss@flat",
+                "TotalVariation@flat", "grad_loss@flat", "GradLoss@flat", "inverse_consistency_loss@exact.fields",
+                "inverse_consistency_loss@exact.affine", "inverse_consistency_loss@exact.transform", "LandmarkPointDistance@coincident",
+                "ClosestPointDistance@coincident", "abspow@zero", "angle_axis_to_rotation_matrix@zero", "angle_axis_to_quaternion@zero",
+                "quaternion_log_to_exp@zero", "quaternion_to_angle_axis@identity", "rotation_matrix_to_angle_axis@identity"]
+KINK_PQ = [[1, 1], [1, 2], [3, 1], [1.5, 1], [0, 0], [1, None], [2, None], [2, 0.5], [3, None], [4, 0.25], [2, 1]]  # p * q >= 1 (or |sum|)
+
+
+@st.composite
+def kink_cases(draw, entry=None, point=None):
+    entry = entry or draw(st.sampled_from(KINK_ENTRIES))
+    D = draw(gen.dims())
+    case = {
+        "entry": entry, "D": D, "shape": draw(small_shapes(D, 4, 8, 5)), "N": draw(st.integers(1, 2)), "C": draw(st.integers(1, 2)),
+        "key": draw(st.integers(0, 10 ** 6)), "point": "kink", "pattern": draw(st.sampled_from(["all", "part", "part"])),
+        "reduction": draw(st.sampled_from(["mean", "sum", "none"])), "mask": draw(st.sampled_from([None, None, "full", "channel"])),
+        "norm": draw(st.sampled_from([None, 2.5])), "wrt": draw(st.sampled_from(["both", "first", "second"])),
+        "amp": draw(gen.qfloat(0.05, 0.4, 0.01)), "mode": draw(st.sampled_from(FD_MODES)), "sigma": draw(st.sampled_from([None, None, 0.7])),
+        "spacing": draw(st.sampled_from([None, "scalar", "vector", "tensor"])), "stride": draw(st.sampled_from([1, 2])),
+        "pq": draw(st.sampled_from(KINK_PQ)), "field": draw(st.sampled_from(["zero", "support", "support", "constant"])),
+        "units": draw(st.sampled_from(["cube", "voxel", "world"])), "margin": draw(st.sampled_from([0, 0, 1, 0.2])),
+        "icmask": draw(st.sampled_from([False, False, True])), "T": draw(st.sampled_from(["Translation", "StationaryVelocityFieldTransform",
+                                                                                         "RigidTransform", "StationaryVelocityFreeFormDeformation"])),
+        "tpoint": draw(st.sampled_from(["special", "generic"])), "pair": draw(st.sampled_from(["linked", "independent"])),
+        "X": draw(st.integers(1, 6)), "extra": draw(st.integers(0, 4)),
+        "sets": draw(st.integers(1, 2)), "scale": draw(st.sampled_from([10.0, 1.0])), "dtype": draw(st.sampled_from(["float64", "float32"])),
+        "exponent": draw(st.sampled_from([1, 1.5, 2, 3])), "psize": draw(st.lists(st.integers(1, 5), min_size=1, max_size=3)),
+        "pscale": draw(st.sampled_from([None, 1.0, 1000.0])), "steps": draw(st.integers(1, 4)),
+    }
+    if entry.startswith("inverse_consistency_loss"):
+        case["grid"] = draw(small_grids(D, ac=True if case["T"] == "StationaryVelocityFreeFormDeformation" else None))
+    return case
+
+
+def _part_mask(shape, key, pattern):
+    """Boolean tensor: where the residual is exactly zero ('all': everywhere; 'part': on about half of the elements)."""
+    if pattern == "all":
+        return torch.ones(tuple(shape), dtype=torch.bool)
+    m = noise(shape, key, 0.0, 1.0) < 0.5
+    m.reshape(-1)[key % m.numel()] = True
+    return m
+
+
+def _support(shape, key):
+    """Indicator (1, 1) + shape of a compact support: zero on the lower or upper part (at least 3 samples, so that central
+    differences vanish somewhere) of one axis."""
+    s = torch.ones((1, 1) + tuple(shape), dtype=torch.float64)
+    ax = key % len(shape)
+    n = shape[ax]
+    k = 3 + (key // 3) % max(1, n - 4)
+    idx = [slice(None)] * (2 + len(shape))
+    idx[2 + ax] = slice(0, k) if (key // 7) % 2 else slice(n - k, n)
+    s[tuple(idx)] = 0.0
+    return s
+
+
+def build_kink_probe(case) -> Probe:
+    import deepali.losses as LM
+    import deepali.losses.functional as L
+    import deepali.spatial as S
+    from deepali.core import functional as U
+
+    entry, D, shape, key, N, C = case["entry"], case["D"], tuple(case["shape"]), case["key"], case["N"], case["C"]
+    name, _, where = entry.partition("@")
+    red, pat = case["reduction"], case["pattern"]
+    labels = [f"D={D}", f"pattern={pat}"]
+    full = (N, C) + shape
+
+    def pick(x, y):
+        xl = _leaf(x) if case["wrt"] in ("both", "first") else x
+        yl = _leaf(y) if case["wrt"] in ("both", "second") else y
+        return xl, yl, [t for t in (xl, yl) if t.requires_grad]
+
+    if name in ("mae_loss", "l1_loss", "L1ImageLoss"):  # identical images (everywhere / on a part of the samples)
+        x = noise(full, key + 301, 0.0, 1.0)
+        off = torch.where(noise(full, key + 303) < 0, -1.0, 1.0).double() * (0.05 + 0.5 * noise(full, key + 302, 0.0, 1.0))
+        y = torch.where(_part_mask(full, key + 304, pat), x, x + off)
+        kw = {}
+        if case["mask"] is not None:
+            kw["mask"] = _posmask((N, 1 if case["mask"] == "channel" else C) + shape, key + 305)
+        if case["norm"] is not None:
+            kw["norm"] = case["norm"]
+        xl, yl, leaves = pick(x, y)
+        labels += [f"red={red}", f"wrt={case['wrt']}", f"mask={case['mask']}"]
+        if name == "L1ImageLoss":
+            mod = LM.L1ImageLoss(**({"norm": kw["norm"]} if "norm" in kw else {}))
+            fkw = {"mask": kw["mask"]} if "mask" in kw else {}
+            return Probe(leaves, lambda: mod(xl, yl, **fkw), 1.0, labels=labels)
+        fn = getattr(L, name)
+        return Probe(leaves, lambda: fn(xl, yl, reduction=red, **kw), 1.0, labels=labels)
+    if name in ("L1Norm", "Sparsity"):  # zero parameters (all / part of them)
+        psh = (N,) + tuple(case["psize"])
+        mag = noise(psh, key + 311, 0.05, 1.0) * torch.where(noise(psh, key + 312) < 0, -1.0, 1.0).double()
+        x = _leaf(torch.where(_part_mask(psh, key + 313, pat), torch.zeros_like(mag), mag))
+        kw = {} if (case["pscale"] is None or name == "Sparsity") else dict(scale=case["pscale"])
+        mod = getattr(LM, name)(**kw)
+        return Probe([x], lambda: mod(x), 1.0, labels=labels + [f"scale={case['pscale']}"])
+    if name in ("total_variation_loss", "TotalVariation", "grad_loss", "GradLoss"):
+        fk = case["field"]
+        if fk == "zero":
+            u = torch.zeros((N, D) + shape, dtype=torch.float64)
+        elif fk == "constant":  # one constant vector per image of the batch
+            u = noise((N, D) + (1,) * D, key + 321, -0.3, 0.3).expand((N, D) + shape).clone()
+        else:  # compact support: exactly zero on a part of the domain, strictly monotone (|du| >= 0.05) inside
+            u = monotone_field(N, D, shape, key + 322, 0.05, 0.3) * _support(shape, key + 323)
+        kw, mode = _deriv_kwargs(case, D)
+        kw["reduction"] = red
+        tag = ""
+        if name in ("grad_loss", "GradLoss"):
+            p, q = case["pq"]
+            kw.update(p=p, q=q)
+            labels += [f"p={p}", f"q={q}"]
+            if p != 0 and (1.0 / p if q is None else q) < 1:
+                tag = "[q<1]"  # (sum |du|**p)**q with q < 1 <= p * q: the Euclidean / p-norm of the gradient
+        u = _leaf(u)
+        labels += [f"field={fk}", f"mode={mode}", f"red={red}"]
+        if name in ("TotalVariation", "GradLoss"):
+            mod = _loss_class(name)(**kw)
+            return Probe([u], lambda: mod(u), 0.3, labels=labels, tag=tag)
+        fn = getattr(L, name)
+        return Probe([u], lambda: fn(u, **kw), 0.3, labels=labels, tag=tag)
+    if name == "inverse_consistency_loss":
+        g = case["grid"]
+        grid = make_grid(g)
+        gshape = tuple(grid.shape)
+        a = case["amp"]
+        kw = dict(grid=grid, units=case["units"], reduction=red, margin=case["margin"])
+        if case["icmask"]:  # (the batch size of the mask is 1 or that of the error: 1 for a pair of homogeneous transformations)
+            kw["mask"] = (noise((N if where == "exact.fields" else 1, 1) + gshape, key + 333, 0.0, 1.0) > 0.3).double()
+        labels += [f"units={case['units']}", f"margin={case['margin']}", f"mask={case['icmask']}", f"red={red}", f"wrt={case['wrt']}"]
+        if where == "exact.fields":
+            # both fields are exactly zero on the same part of the domain (field = 'zero': everywhere); inside their common
+            # support they are generic, so that the forward field is sampled off the knots of the inverse field there
+            s = torch.zeros((1, 1) + gshape, dtype=torch.float64) if case["field"] == "zero" else _support(gshape, key + 334)
+            fwd = noise((N, D) + gshape, key + 331, -a, a) * s
+            inv = (-noise((N, D) + gshape, key + 331, -a, a) + noise((N, D) + gshape, key + 332, -0.5 * a, 0.5 * a)) * s
+            fl, il, leaves = pick(fwd, inv)
+            return Probe(leaves, lambda: L.inverse_consistency_loss(fl, il, **kw), a, labels=labels + [f"field={case['field']}"])
+        if where == "exact.affine":  # a translation and its analytic inverse, both as homogeneous coordinate transformations
+            t = noise((1, D, 1), key + 335, -0.3, 0.3)
+            eye = torch.eye(D, dtype=torch.float64).unsqueeze(0)
+            fl, il, leaves = pick(torch.cat([eye, t], dim=2), torch.cat([eye, -t], dim=2))
+            return Probe(leaves, lambda: L.inverse_consistency_loss(fl, il, **kw), 0.3, labels=labels)  # (x + t - t == x exactly)
+        # a transformation (initial or generic parameters) and its inverse, as used for an inverse consistency penalty: the linked
+        # inverse of the same parameters (the residual is identically zero up to round-off: finiteness is what is asserted), or
+        # a second, independently parameterised transformation of the same class at the exactly inverse parameters
+        cls = case["T"]
+        pair = "independent" if (case["pair"] == "independent" and cls != "RigidTransform") else "linked"
+        tcase = {"N": 1, "key": key, "dtype": "float64", "amp": a, "stride": 1, "resize": True, "ffd_stride": 2, "transpose": False,
+                 "order": None, "steps": case["steps"], "vscale": None,
+                 "point": "special" if cls in SVF else case["tpoint"]}  # (generic velocity fields are not exactly inverse-consistent)
+        t = build_transform(cls, grid, tcase)
+        labels += [f"T={cls}", f"tpoint={tcase['point']}", f"pair={pair}"]
+        # the residual x + t - t - x is pure round-off of cube coordinates of magnitude 1 (in the requested units)
+        umag = 1.0 if case["units"] == "cube" else 0.5 * max(g["size"]) * (max(g["spacing"]) if case["units"] == "world" else 1.0)
+        scale = 0.3 if cls in LINEAR else a
+        if pair == "linked":
+            def ev():
+                t.update()
+                inv = t.inverse(link=True, update_buffers=True)
+                return L.inverse_consistency_loss(t.tensor(), inv.tensor(), **kw)
+
+            return Probe(list(t.parameters()), ev, scale, labels=labels, abs_mag=umag)
+        t2 = build_transform(cls, grid, tcase)
+        with torch.no_grad():
+            for q in t2.parameters():
+                q.neg_()  # Translation: -offset; velocity fields: -v (both zero at the initial point)
+
+        def ev2():
+            return L.inverse_consistency_loss(t.update().tensor(), t2.update().tensor(), **kw)
+
+        return Probe(list(t.parameters()) + list(t2.parameters()), ev2, scale, labels=labels, abs_mag=umag)
+    if name in ("LandmarkPointDistance", "ClosestPointDistance"):  # points that coincide with their (closest) counterpart
+        dt = torch.float64 if case["dtype"] == "float64" else torch.float32
+        X = case["X"]
+        closest = name == "ClosestPointDistance"
+        Y = X + (case["extra"] if closest else 0)
+        base = lattice_points(N, Y, D, key + 341)  # pairwise separation >= 0.8
+        if closest:
+            sel = np.stack([np.argsort(hash_noise((Y,), key * 5 + n, 0.0, 1.0), kind="stable")[:X] for n in range(N)])
+            xs = np.take_along_axis(base, sel[..., None], axis=1)
+        else:
+            xs = base.copy()
+        hit = _part_mask((N, X, 1), key + 342, pat).numpy()
+        xs = np.where(hit, xs, xs + offset_vectors((N, X, D), key + 343, 0.1, 0.3))
+        ys = [base] + [base + hash_noise((N, Y, D), key + 350 + k, -0.04, 0.04) for k in range(1, case["sets"])]
+        x, ys = torch.tensor(xs, dtype=dt), [torch.tensor(y, dtype=dt) for y in ys]
+        xl = _leaf(x) if case["wrt"] in ("both", "first") else x
+        yl = [(_leaf(y) if case["wrt"] in ("both", "second") else y) for y in ys]
+        mod = getattr(LM, name)(scale=case["scale"])
+        labels += [case["dtype"], f"sets={len(ys)}", f"wrt={case['wrt']}"]
+        return Probe([v for v in [xl] + yl if v.requires_grad], lambda: mod(xl, *yl), 1.0, labels=labels, rule="f32")
+    if name == "abspow":
+        x = noise(full, key + 351, -1.0, 1.0)
+        x = _leaf(torch.where(_part_mask(full, key + 352, pat), torch.zeros_like(x), x + 0.05 * torch.sign(x)))
+        e = case["exponent"]
+        return Probe([x], lambda: U.abspow(x, e), 1.0, labels=labels + [f"exponent={e}"])
+    # ---- smooth points of a singular formula: zero rotation vector / identity quaternion / identity matrix (rows: all / part)
+    dt = torch.float64 if case["dtype"] == "float64" else torch.float32
+    M = N + 1
+    rows = _part_mask((M, 1), key + 361, pat)
+    labels.append(case["dtype"])
+    if name in ("angle_axis_to_rotation_matrix", "angle_axis_to_quaternion", "quaternion_log_to_exp"):
+        v = noise((M, 3), key + 362, -1.5, 1.5, dt)
+        v = v + 0.2 * torch.sign(v)
+        x = _leaf(torch.where(rows, torch.zeros_like(v), v))
+        return Probe([x], lambda: getattr(U, name)(x), 1.0, labels=labels)
+    q, R = _generic_rotations(M, key + 363)
+    if name == "quaternion_to_angle_axis":
+        q = np.where(rows.numpy(), np.array([1.0, 0.0, 0.0, 0.0]), q)
+        x = _leaf(torch.tensor(q, dtype=dt))
+        return Probe([x], lambda: U.quaternion_to_angle_axis(x), 1.0, labels=labels)
+    if name == "rotation_matrix_to_angle_axis":
+        tr = np.trace(R, axis1=1, axis2=2)
+        R = np.where(rows.numpy()[..., None] | (tr < 0.3)[:, None, None], np.eye(3), R)  # (generic rows: away from the branch switches)
+        x = _leaf(torch.tensor(R, dtype=dt))
+        return Probe([x], lambda: U.rotation_matrix_to_angle_axis(x), 1.0, labels=labels)
+    raise KeyError(entry)
+
+
+def check_kink(entry: str, probe: Probe, key: int) -> dict:
+    """Oracle at a kink / singular point x0 of f = sum(w * out) with POSITIVE generated weights w.
+
+    The entries of KINK_ENTRIES are positive combinations of |.| / Euclidean norms of functions that are smooth (or positively
+    homogeneous piecewise linear with value 0) at x0, or smooth functions: such f is locally Lipschitz and Clarke regular, every
+    element g of its generalised gradient satisfies, for every direction d,
+            - D+ f(x0; -d)  <=  <g, d>  <=  D+ f(x0; d)          (one-sided directional derivatives D+),
+    and at a smooth point both bounds coincide with the derivative.  Asserted: the gradient autograd returns is FINITE (a NaN / Inf
+    from 0 * inf in the backward pass of sqrt / division at the point poisons every parameter with the first optimiser step) and
+    satisfies these inequalities along 3 generated directions, D+ estimated by the one-sided difference quotients of steps h and
+    h / 2 (used only if both agree within half the tolerance; a direction in which the lower estimate exceeds the upper one - the
+    function would not be regular there - is dropped and counted).  Purity as in check_probe."""
+    leaves = probe.leaves
+    inputs = _Inputs(probe)
+    out = _flat(probe.evaluate())
+    labels = [entry] + probe.labels
+    entry = entry + probe.tag
+    if not out.is_floating_point():
+        raise Violation(f"output_not_float:{entry}", f"output dtype {out.dtype}")
+    if not out.requires_grad:
+        raise Violation(f"no_grad_path:{entry}", "output does not require grad although an input/parameter does")
+    if not bool(torch.isfinite(out).all()):
+        raise Violation(f"output_nonfinite:{entry}", "forward value is not finite")
+    f64 = out.dtype == torch.float64 and all(p.dtype == torch.float64 for p in leaves) and probe.rule != "f32"
+    eps, rel, h = (EPS64, REL64, H64 * probe.scale) if f64 else (EPS32, REL32, H32 * probe.scale)
+    labels.append("rule=f64" if f64 else "rule=f32")
+    w = _weights(out.numel(), key).abs()
+    s = (w.to(out.dtype) * out).sum()
+    fmag = float((w * out.detach().double().abs().clamp_min(probe.abs_mag)).sum())
+    grads = _backward(entry, s, leaves)
+    grads = [torch.zeros_like(p) if g is None else g.detach().clone() for g, p in zip(grads, leaves)]
+    for i, g in enumerate(grads):
+        if not bool(torch.isfinite(g).all()):
+            bad = int((~torch.isfinite(g)).sum())
+            raise Violation(f"grad_nonfinite:{entry}",
+                            f"gradient w.r.t. leaf {i} has {bad} non-finite entries of {g.numel()} at a point where the forward value "
+                            "is finite and the operation is locally Lipschitz (finite one-sided derivatives in every direction)")
+    F = _Eval(probe, w)
+    zero = [torch.zeros_like(p) for p in leaves]
+    f0 = F(0.0, zero)
+    inputs.check(entry)
+    _check_reproducible(entry, "value of the first evaluation vs the second evaluation with the same inputs",
+                        float((w * out.detach().double()).sum()), f0, eps, max(fmag, F.mag))
+    worst, nontrivial, used = 0.0, False, 0
+    for k, d in enumerate(_directions(leaves, key)):
+        ad = float(sum((g.double() * di).sum() for g, di in zip(grads, d)))
+        fp, fm, fp2, fm2 = F(h, d), F(-h, d), F(h / 2, d), F(-h / 2, d)
+        up1, up2 = (fp - f0) / h, (fp2 - f0) / (h / 2)  # -> D+ f(x0; d)
+        lo1, lo2 = (f0 - fm) / h, (f0 - fm2) / (h / 2)  # -> -D+ f(x0; -d)
+        fmag = max(fmag, F.mag)
+        unit = fmag / probe.scale
+        floor = 2 * KNOISE * eps * fmag / h  # round-off of a one-sided quotient of step h / 2
+        tol = rel * max(abs(ad), abs(up2), abs(lo2)) + floor
+        # error of the quotients of step h / 2 estimated from those of step h: for a truncation error c * h**a the error of the
+        # finer quotient is |q(h) - q(h/2)| / (2**a - 1) <= 3 |q(h) - q(h/2)| for a >= 0.42 (a = 1 at a smooth point or a norm kink,
+        # a = 1/2 for |x|**1.5 at 0); a direction is used if that estimate is within the tolerance, or at least small against the
+        # natural unit of a derivative (the bracket is then widened by it)
+        eup, elo = 3 * abs(up1 - up2), 3 * abs(lo1 - lo2)
+        if max(eup, elo) > max(1.5 * tol, 1e-2 * unit):
+            labels.append(f"fd_unreliable:{entry}")
+            continue
+        if lo2 - elo > up2 + eup + tol:
+            labels.append(f"not_regular_direction:{entry}")
+            continue
+        used += 1
+        excess = max((lo2 - elo) - ad, ad - (up2 + eup), 0.0)
+        if excess > tol:
+            raise Violation(f"not_a_subgradient:{entry}",
+                            f"direction {k}: <autograd gradient, d> = {ad:.9g} is outside the one-sided directional derivatives "
+                            f"[-D+f(-d), D+f(d)] = [{lo2:.9g}, {up2:.9g}] (h/2; h={h:.3g}: [{lo1:.9g}, {up1:.9g}]) by {excess:.3g} > "
+                            f"tol {tol:.3g} (rel {rel:g}, floor {floor:.3g}, rule {'f64' if f64 else 'f32'})")
+        worst = max(worst, excess / tol)
+        if up2 - lo2 >= NT_FRACTION * unit:
+            labels.append("kink_open")
+            nontrivial = True
+        elif abs(up2) >= NT_FRACTION * unit:
+            labels.append("smooth_direction")
+            nontrivial = True
+    inputs.check(entry)
+    F.leaves_kept(entry)
+    _check_reproducible(entry, "value before vs after the finite-difference evaluations (same inputs)", f0, F(0.0, zero), eps, fmag)
+    if used == 0:
+        raise Skip(f"fd_unreliable:{entry}")
+    return {"ratio": worst, "nontrivial": nontrivial, "labels": labels}
+
+
+def run_kink(case):
+    return check_kink(case["entry"], build_kink_probe(case), case["key"])
 
 
 # =======================================================================================
@@ -2955,7 +3491,7 @@ ALL_ENTRIES = {"transforms": TRANSFORM_ENTRIES, "image_transformer": IT_ENTRIES,
                "bspline": BSPLINE_ENTRIES, "rotations_and_grid_maps": ROT_ENTRIES, "similarity_losses": SIM_ENTRIES,
                "regularisers": REG_ENTRIES, "loss_modules": LOSS_MODULE_ENTRIES,
                "pointset_distances": POINTSET_ENTRIES, "core_functional": CORE_ENTRIES, "modules": MODULE_ENTRIES,
-               "parameter_sources_and_composites": SOURCED_ENTRIES}
+               "parameter_sources_and_composites": SOURCED_ENTRIES, "kinks_and_singular_points": KINK_ENTRIES}
 
 FACETS = [
     _facet("transforms", run_transforms, transform_cases, TRANSFORM_ENTRIES,
@@ -3003,4 +3539,14 @@ FACETS = [
            "(inverse(link=True) / .inv); SequentialTransform / MultiLevelTransform with non-rigid and nested members (call, grid "
            "call, disp, tensor, inverse, points, ImageTransformer); GenericSpatialTransform (8 models x 8 affine models; Parameters, "
            "dict of tensors, callable returning a dict, linked inverse)", quick=250, thorough=6000, floor_quick=4, quick_shards=4),
+    Facet("kinks_and_singular_points", run_kink, strategy=lambda: _entry_of(kink_cases, KINK_ENTRIES),
+          enumerate=lambda tier: _floor_cases_at(kink_cases, KINK_ENTRIES, 6 if tier == "quick" else 24, "kink"),
+          rule=f"{len(KINK_ENTRIES)} entries evaluated AT a kink / singular point (identical images under mae / l1, zero parameters "
+               "under L1Norm / Sparsity, zero / compactly supported / constant fields under total variation and grad_loss with "
+               "p*q >= 1, exactly inverse-consistent pairs, coincident points, zero rotation vector / identity quaternion / matrix "
+               "for the angle-axis conversions), exactly zero residual everywhere or on a generated part; finite gradient and "
+               "-D+f(-d) <= <g, d> <= D+f(d) along 3 generated directions with positive generated weights; each entry at least "
+               "6 (quick) / 24 (thorough) times by a seed-independent floor; non-trivial = a reliable direction in which the one-"
+               "sided derivatives differ (kink open) or are clearly non-zero",
+          quick=250, thorough=5000, shards=16, quick_shards=2),
 ]
